@@ -151,6 +151,15 @@ def w_link(ctx, rng, i):
     ctx.bin("shape", shape)
 
 
+def eye_numbers(e, th):
+    """threshold position and level spreads in units of the level distance (witness data for classify)"""
+    try:
+        d = float(e.mu1) - float(e.mu0)
+        return {"th_rel": (float(th) - float(e.mu0)) / d, "s0_rel": float(e.s0) / d, "s1_rel": float(e.s1) / d}
+    except Exception:
+        return {}
+
+
 def w_ook_dsp(ctx, rng, i):
     sps = int(rng.choice([4, 4, 4, 5, 5, 6, 8, 9, 16, 17, 32, 64]))     # sharp low-sps eyes are the hostile corner for the eye estimator
     R = float(rng.choice([1e9, 1e10]))
@@ -170,7 +179,7 @@ def w_ook_dsp(ctx, rng, i):
         rx, eye_obj, rth = O.DSP(y)
         nerr = int(np.sum(rx.data[:n] != bits[: rx.len()])) + abs(rx.len() - n)
         ctx.check("ook.dsp", nerr == 0, f"ook.DSP returned {nerr} wrong bits of {n} ({kind}, {shape}, sps={sps}, n_pol={n_pol}; threshold {rth!r}, eye mu0={getattr(eye_obj, 'mu0', None)!r}, mu1={getattr(eye_obj, 'mu1', None)!r})",
-                  swing=float(np.ptp(y.signal)))
+                  swing=float(np.ptp(y.signal)), **eye_numbers(eye_obj, rth))
         if nerr == 0:
             ber = O.BER_analizer("counter", Tx=T.binary_sequence(bits), Rx=rx)
             ctx.check("ber.counter", ber == 0, f"ook.BER_analizer('counter') = {ber!r} for an error-free sequence")
@@ -278,4 +287,20 @@ WORKLOADS = [
 
 
 def classify(v):
+    """mechanism key of a violation, from the conditions of the failing case (never from seeds or values)."""
+    c = v.get("case") or {}
+    if v.get("monitor") == "ook.dsp" and isinstance(c, dict) and "nan" in str(v.get("msg", "")):
+        g = c.get("gaussian_args") or {}
+        el = c.get("element") or {}
+        disp = el.get("beta2L", el.get("D")) if isinstance(el, dict) else None
+        slot2 = (1e12 / c["R"]) ** 2 if c.get("R") else None
+        if (c.get("shape") == "gaussian" and c.get("sps") == 4 and g.get("T") == 2 and (g.get("m") or 1) >= 2 and (c.get("BW_over_R") or 0) >= 1.8
+                and disp is not None and slot2 and disp / slot2 >= 0.0075):
+            return "eye-instant-on-slot-boundary-for-half-slot-pulses"
+    info = v.get("info") or {}
+    if v.get("monitor") == "ook.dsp" and isinstance(c, dict) and isinstance(info, dict) and all(isinstance(info.get(k), (int, float)) for k in ("th_rel", "s0_rel", "s1_rel")):
+        glued1 = info["s1_rel"] < 1e-3 and info["th_rel"] > 0.98
+        glued0 = info["s0_rel"] < 1e-3 and info["th_rel"] < 0.02
+        if (glued0 or glued1) and (c.get("n") or 10 ** 9) <= 64 and (c.get("BW_over_R") or 9) < 0.8:
+            return "threshold-glued-to-a-level-on-short-isi-records"
     return None
